@@ -231,6 +231,70 @@ fn place(s: &str, pos: usize) -> Yaml<'static> {
         }
     }
 }
+/// boundary floats: whole numbers around 2^53 / 2^63 / 2^64, extreme exponents, subnormals
+fn float_table() -> Vec<f64> {
+    let mut v = vec![
+        1e15, 1e16, 1e17, 1e18, 9.2e18, 9223372036854775808.0, 9223372036854777856.0, 1e19, 18446744073709551616.0, 1e20, 1e21, 1e22, 1e23, 1e100, 1e300, f64::MAX, f64::MIN_POSITIVE, 5e-324, 1e-5, 1e-7, 0.1, 0.3, 1.5, 2.5e-3, 123456.789, 9007199254740992.0, 9007199254740993.0, 4503599627370496.5,
+        1.7976931348623157e308, 2.2250738585072014e-308, 100.0, 1000000.0, 0.000001, 12345678901234567890.0,
+    ];
+    let neg: Vec<f64> = v.iter().map(|x| -x).collect();
+    v.extend(neg);
+    v
+}
+fn place_y(v: Yaml<'static>, pos: usize) -> Yaml<'static> {
+    match pos {
+        0 => v,
+        1 => Yaml::Sequence(vec![v, sc("z")]),
+        2 => {
+            let mut m = Mapping::new();
+            m.insert(v, sc("z"));
+            m.insert(sc("y"), sc("z"));
+            Yaml::Mapping(m)
+        }
+        _ => {
+            let mut m = Mapping::new();
+            m.insert(sc("k"), v);
+            m.insert(sc("y"), sc("z"));
+            Yaml::Mapping(m)
+        }
+    }
+}
+/// a spine: `kinds[0]` is the outermost level; every level has a sibling so that indentation matters
+fn spine(kinds: &[u8], leaf: usize) -> Yaml<'static> {
+    let mut y = match leaf {
+        0 => sc("a"),
+        1 => sc("a\nb\n"),
+        2 => Yaml::Value(Scalar::Integer(7)),
+        _ => Yaml::Sequence(vec![]),
+    };
+    for k in kinds.iter().rev() {
+        y = match k {
+            0 => Yaml::Sequence(vec![y, sc("z")]),
+            1 => Yaml::Sequence(vec![sc("z"), y]),
+            2 => {
+                let mut m = Mapping::new();
+                m.insert(sc("k"), y);
+                m.insert(sc("y"), sc("z"));
+                Yaml::Mapping(m)
+            }
+            _ => {
+                let mut m = Mapping::new();
+                m.insert(y, sc("v"));
+                m.insert(sc("y"), sc("z"));
+                Yaml::Mapping(m)
+            }
+        };
+    }
+    y
+}
+fn spine_kinds(mut i: u64, d: usize) -> Vec<u8> {
+    let mut v = vec![0u8; d];
+    for k in (0..d).rev() {
+        v[k] = (i % 4) as u8;
+        i /= 4;
+    }
+    v
+}
 const POS: [&str; 5] = ["root", "seq-item", "map-key", "map-value", "nested-key+value"];
 
 pub fn replay(case: &Value) -> Result<Acc, String> {
@@ -239,6 +303,13 @@ pub fn replay(case: &Value) -> Result<Acc, String> {
         let s: String = case["codepoints"].as_array().ok_or("no codepoints")?.iter().filter_map(|c| char::from_u32(c.as_u64().unwrap_or(0) as u32)).collect();
         let pos = case["pos"].as_u64().unwrap_or(0) as usize;
         eval(&place(&s, pos), POS[pos], case, &mut acc);
+    } else if case["kind"] == "float" {
+        let bits = case["bits"].as_u64().ok_or("no bits")?;
+        let pos = case["pos"].as_u64().unwrap_or(0) as usize;
+        eval(&place_y(Yaml::Value(Scalar::FloatingPoint(OrderedFloat(f64::from_bits(bits)))), pos), POS[pos], case, &mut acc);
+    } else if case["kind"] == "spine" {
+        let kinds: Vec<u8> = case["kinds"].as_array().ok_or("no kinds")?.iter().map(|k| k.as_u64().unwrap_or(0) as u8).collect();
+        eval(&spine(&kinds, case["leaf"].as_u64().unwrap_or(0) as usize), "spine", case, &mut acc);
     } else {
         let n = case["leaves"].as_u64().unwrap_or(6) as usize;
         let size = case["size"].as_u64().unwrap_or(1) as usize;
@@ -252,7 +323,7 @@ pub fn replay(case: &Value) -> Result<Acc, String> {
 
 pub fn check(tier: Tier) -> i32 {
     let mut rep = Report::new("C09", tier, "model_checking");
-    rep.rule = "abstract values: (1) every string of length <= L over the 20-symbol alphabet {a space LF tab : # - ? ' \" \\ [ { , 0 . + ~ CR é} plus ~60 type-like / indicator / boundary words (incl. a 1025-character string), each placed at root, as sequence item, mapping key, mapping value and as key+value of a mapping nested in a sequence; (2) every tree of <= s nodes over a leaf alphabet of nulls, booleans, boundary integers, floats (1.0, -0.0, 1e300, 1e-7, 1e16, inf, -inf, NaN), strings, empty collections, with scalar and collection keys; each under the 4 emitter settings {compact} x {multiline_strings}. Oracle: dump succeeds, the text loads to exactly one document equal to the original (scalar types distinguished, floats by value, NaN == NaN, order kept), and dumping the reloaded tree gives the same text. Non-trivial: every dump; distinct: distinct emitted texts.".into();
+    rep.rule = "abstract values: (1) every string of length <= L over the 20-symbol alphabet {a space LF tab : # - ? ' \" \\ [ { , 0 . + ~ CR é} plus ~60 type-like / indicator / boundary words (incl. a 1025-character string), each placed at root, as sequence item, mapping key, mapping value and as key+value of a mapping nested in a sequence; (2) every tree of <= s nodes over a leaf alphabet of nulls, booleans, boundary integers, floats (1.0, -0.0, 1e300, 1e-7, 1e16, inf, -inf, NaN), strings, empty collections, with scalar and collection keys; (3) 68 boundary floats (whole numbers around 2^53, 2^63, 2^64, extreme exponents, subnormals; both signs) at 4 positions; (4) every nesting chain ('spine') of depth <= D over 4 level kinds, each level with a sibling, x 4 innermost leaves; each under the 4 emitter settings {compact} x {multiline_strings}. Oracle: dump succeeds, the text loads to exactly one document equal to the original (scalar types distinguished, floats by value, NaN == NaN, order kept), and dumping the reloaded tree gives the same text. Non-trivial: every dump; distinct: distinct emitted texts.".into();
     rep.assumptions = vec!["trees contain no Alias / BadValue / Representation nodes (outside the property's domain)".into()];
     let budget = Budget::new(wall_cap(tier));
     rep.mandatory_scopes = 2;
@@ -286,6 +357,35 @@ pub fn check(tier: Tier) -> i32 {
         states += ts.len() as u64;
         rep.acc.merge(acc);
         rep.scope(&format!("trees of {size} nodes over {n_leaves} leaves ({}) x 4 settings", ts.len()), n, done == ts.len() as u64);
+    }
+    // boundary floats at four positions
+    let ft = float_table();
+    let (acc, done) = par_blocks(ft.len() as u64, &budget, |b, acc| {
+        let f = ft[b as usize];
+        for pos in 0..4 {
+            let case = json!({"kind": "float", "bits": f.to_bits(), "value": format!("{f:e}"), "pos": pos});
+            eval(&place_y(Yaml::Value(Scalar::FloatingPoint(OrderedFloat(f))), pos), POS[pos], &case, acc);
+        }
+    });
+    let n = acc.evals;
+    states += ft.len() as u64 * 4;
+    rep.acc.merge(acc);
+    rep.scope(&format!("boundary floats ({}) x 4 positions x 4 settings", ft.len()), n, done == ft.len() as u64);
+    // spines: every nesting chain of depth <= D over 4 level kinds x 4 innermost leaves
+    let dmax = if tier == Tier::Quick { 7 } else { 9 };
+    for d in 1..=dmax {
+        let total = 4u64.pow(d as u32);
+        let (acc, done) = par_blocks(total, &budget, |b, acc| {
+            let kinds = spine_kinds(b, d);
+            for leaf in 0..4 {
+                let case = json!({"kind": "spine", "kinds": kinds, "leaf": leaf});
+                eval(&spine(&kinds, leaf), "spine", &case, acc);
+            }
+        });
+        let n = acc.evals;
+        states += total * 4;
+        rep.acc.merge(acc);
+        rep.scope(&format!("spines of depth {d}: 4 level kinds (first/last sequence item, mapping value, mapping key; each with a sibling) x 4 innermost leaves ({}) x 4 settings", total * 4), n, done == total);
     }
     let cases = rep.acc.evals;
     rep.mc = Some((states.max(1), cases.max(1), cases * 2));
